@@ -303,6 +303,12 @@ func cnrPad(b []byte, L int) []byte {
 	return out
 }
 
+// sizedBlob is the (deterministic) container blob of length L.
+func (c *cnrEnv) sizedBlob(L int) []byte {
+	k := L % 7
+	return cnrBlobN([]int{0, 2, 5}[k%3], c.ownerIDs[k%cnrNOwners], byte(0x20+k), L)
+}
+
 func (c *cnrEnv) buildPools() {
 	// six blobs: version-field lengths 0, 2, 5 (the owner offset moves), two owners each
 	vs := []int{0, 2, 5, 0, 2, 5}
@@ -314,16 +320,22 @@ func (c *cnrEnv) buildPools() {
 	for k, oi := range c.alphaOwners {
 		c.blobs = append(c.blobs, cnrBlob([]int{0, 2}[k%2], c.ownerIDs[oi], byte(7+k)))
 	}
-	// blobs whose length crosses the encoding boundaries
+	// blobs whose length crosses the encoding boundaries.  Every getter reads
+	// every pool blob after every operation, so the quick tier keeps four of them
+	// in the pool (below/above the 252/253 boundary, 300, one multi-KiB); the
+	// others, up to the largest blob a transaction carries, are put, listed and
+	// deleted in the corpus.  The thorough tier has them all in the pool.
 	c.firstSized = len(c.blobs)
-	for k, L := range cnrSizes {
-		c.blobs = append(c.blobs, cnrBlobN([]int{0, 2, 5}[k%3], c.ownerIDs[k%cnrNOwners], byte(0x20+k), L))
-	}
-	{ // the largest blob that fits a transaction (put with a 64-byte signature and the 5-byte token)
+	{
 		tx := c.E.NewUnsignedTx(c.T, c.container, "put", make([]byte, 60000), cnrSigA, make([]byte, 33), cnrTok)
 		c.maxBlob = 65535 - (len(tx.Script) - 60000)
-		// the pool's big blob leaves room for the name arguments of putNamed
-		c.blobs = append(c.blobs, cnrBlobN(2, c.ownerIDs[1], 0x3f, c.maxBlob-100))
+	}
+	poolSizes := []int{252, 253, 300, 4096}
+	if Tier() == "thorough" {
+		poolSizes = append(append([]int{}, cnrSizes...), c.maxBlob-100) // room for the name arguments of putNamed
+	}
+	for _, L := range poolSizes {
+		c.blobs = append(c.blobs, c.sizedBlob(L))
 	}
 	for _, b := range c.blobs {
 		h := sha256.Sum256(b)
@@ -1671,7 +1683,11 @@ func (g *cnrGen) next(step int) cnrOp {
 			}
 		}
 		if len(cid) == 32 && r.Intn(4) == 0 {
-			e = cnrPad(e, []int{252, 253, 256, 300, 4096, 65000}[r.Intn(6)]) // eACL tables across the length-prefix boundaries
+			szs := []int{252, 253, 256, 300, 4096}
+			if Tier() == "thorough" {
+				szs = append(szs, 65000)
+			}
+			e = cnrPad(e, szs[r.Intn(len(szs))]) // eACL tables across the length-prefix boundaries
 		}
 		op = cnrOp{Kind: "setEACL", Blob: e, Sig: g.sig(), Pub: g.pub(), Tok: g.tok(), Signers: g.alphaSigners()}
 		if len(e) > 60000 {
@@ -1800,24 +1816,28 @@ func cnrCorpus(c *cnrEnv) [][]cnrOp {
 	// the path, each put, read back, given an eACL and deleted again
 	var sizes []cnrOp
 	sizes = append(sizes, fee("ContainerFee", 0), fee("ContainerAliasFee", 0))
-	for k := c.firstSized; k < len(B); k++ {
-		sizes = append(sizes, put(k, cnrTok))
+	var sized [][]byte
+	for _, L := range append(append([]int{}, cnrSizes...), c.maxBlob-100, c.maxBlob) {
+		sized = append(sized, c.sizedBlob(L))
 	}
-	big := cnrBlobN(0, c.ownerIDs[2], 0x3e, c.maxBlob) // the largest blob a transaction can carry
-	sizes = append(sizes, cnrOp{Kind: "put", Blob: big, Sig: cnrSigA, Pub: P[0], Tok: cnrTok, Signers: al})
+	cidOf := func(b []byte) []byte { h := sha256.Sum256(b); return h[:] }
+	putB := func(b []byte) cnrOp {
+		return cnrOp{Kind: "put", Blob: b, Sig: cnrSigA, Pub: P[0], Tok: cnrTok, Signers: al}
+	}
+	for _, b := range sized {
+		sizes = append(sizes, putB(b))
+	}
 	sizes = append(sizes,
-		cnrOp{Kind: "setEACL", Blob: cnrPad(cnrEACL(0, c.cids[c.firstSized+1], 1), 252), Sig: cnrSigA, Pub: P[1], Tok: cnrTok, Signers: al},
-		cnrOp{Kind: "setEACL", Blob: cnrPad(cnrEACL(3, c.cids[c.firstSized+1], 1), 253), Sig: cnrPad(cnrSigB, 253), Pub: P[1], Tok: cnrPad(cnrTok, 253), Signers: al},
-		cnrOp{Kind: "setEACL", Blob: cnrPad(cnrEACL(0, c.cids[c.firstSized+5], 2), 65000), Sig: cnrSigA, Pub: P[1], Tok: cnrTok, Signers: al},
-		cnrOp{Kind: "put", Blob: B[c.firstSized+2], Sig: cnrPad(cnrSigA, 300), Pub: P[0], Tok: cnrPad(cnrTok, 1000), Signers: al}, // re-put with long sig/token
-		named(c.firstSized+1, strings.Repeat("w", 63), "", al), // a 253-byte blob under a 63-byte label
-		named(c.firstSized+6, strings.Repeat("q", 64), "", al)) // 64-byte label: refused by NNS
-	for k := c.firstSized; k < len(B); k++ {
-		sizes = append(sizes, del(k))
+		cnrOp{Kind: "setEACL", Blob: cnrPad(cnrEACL(0, cidOf(sized[1]), 1), 252), Sig: cnrSigA, Pub: P[1], Tok: cnrTok, Signers: al},
+		cnrOp{Kind: "setEACL", Blob: cnrPad(cnrEACL(3, cidOf(sized[1]), 1), 253), Sig: cnrPad(cnrSigB, 253), Pub: P[1], Tok: cnrPad(cnrTok, 253), Signers: al},
+		cnrOp{Kind: "setEACL", Blob: cnrPad(cnrEACL(0, cidOf(sized[5]), 2), 65000), Sig: cnrSigA, Pub: P[1], Tok: cnrTok, Signers: al},
+		cnrOp{Kind: "put", Blob: sized[2], Sig: cnrPad(cnrSigA, 300), Pub: P[0], Tok: cnrPad(cnrTok, 1000), Signers: al}, // re-put with long sig/token
+		cnrOp{Kind: "putNamed", Blob: sized[1], Sig: cnrSigA, Pub: P[0], Tok: cnrTok, Name: strings.Repeat("w", 63), Signers: al}, // a 253-byte blob under a 63-byte label
+		cnrOp{Kind: "putNamed", Blob: sized[6], Sig: cnrSigA, Pub: P[0], Tok: cnrTok, Name: strings.Repeat("q", 64), Signers: al}) // 64-byte label: refused by NNS
+	for _, b := range sized {
+		sizes = append(sizes, cnrOp{Kind: "delete", Cid: cidOf(b), Sig: cnrSigB, Tok: cnrTok, Signers: al})
 	}
-	bh := sha256.Sum256(big)
-	sizes = append(sizes, cnrOp{Kind: "delete", Cid: bh[:], Sig: cnrSigB, Tok: cnrTok, Signers: al},
-		put(c.firstSized+1, cnrTok)) // replay of a deleted 253-byte container
+	sizes = append(sizes, putB(sized[1])) // replay of a deleted 253-byte container
 	return [][]cnrOp{
 		selfPay,
 		sizes,
@@ -1942,7 +1962,7 @@ func runContainerFamily(t *testing.T, prop string) {
 			"non-trivial = the history contains a successful paying put (fee*N > 0) and a put refused or faulting; distinct = by the sequence of (operation kind, outcome, fee*N) triples"
 	}
 	q := newCnrCoq()
-	nh, maxOps := 70, 20
+	nh, maxOps := 56, 20
 	sizes := []int{1}
 	if Tier() == "thorough" {
 		nh, maxOps = 420, 40
